@@ -971,3 +971,110 @@ def with_macros(text, rng):
     # macro definitions go after the project header block
     idx = next(i for i, l in enumerate(out) if l.strip() == "}")
     return "\n".join(out[:idx + 1] + macros + out[idx + 1:]) + "\n"
+
+
+# ======================================================================================
+# C11: infeasible but grammatical projects, and corrupted texts
+# ======================================================================================
+def infeasible(rng, n):
+    out = []
+    for i in range(n):
+        G = rng.choice([3600, 3600, 1800])
+        start = datetime(2024, 7, 1)
+        alap = rng.random() < 0.2
+        p = Proj(start=start, G=G, length=rng.choice(["+1w", "+2w", "+3d", "+1d"]), alap=alap)
+        rs = [p.add_res("r%d" % k) for k in range(rng.randint(1, 2))]
+        never = p.add_res("never", leaves=[(start, start + timedelta(days=900))])
+        grp = p.add_res("grp")
+        p.add_res("m0", parent=grp)
+        ts = []
+        nt = rng.randint(2, 6)
+        cont = p.add_task("box") if rng.random() < 0.4 else None
+        for k in range(nt):
+            kind = rng.choice(["plain", "plain", "never", "zero", "huge", "noalloc", "late", "early_end", "ms", "group"])
+            kw = dict(effort=G * rng.randint(1, 9), alloc=[rng.choice(rs)])
+            if kind == "never":
+                kw["alloc"] = [never]
+            elif kind == "zero":
+                kw["effort"] = 0
+            elif kind == "huge":
+                kw["effort"] = 3600 * rng.choice([400, 900, 2000])
+            elif kind == "noalloc":
+                kw["alloc"] = []
+            elif kind == "late":
+                kw["start"] = start + timedelta(days=rng.choice([30, 400]))
+            elif kind == "early_end":
+                kw["end"] = start + timedelta(hours=rng.choice([1, 10]))
+                kw["mode"] = "alap"
+            elif kind == "ms":
+                kw = dict(effort=0, alloc=[], milestone=True)
+            elif kind == "group":
+                kw["alloc"] = [grp]
+            t = p.add_task("t%d" % k, parent=cont if (cont and rng.random() < 0.5) else None, **kw)
+            ts.append(t)
+        # dependency patterns incl. cycles and self-dependencies
+        for t in ts:
+            x = rng.random()
+            if x < 0.15:
+                t.deps.append((t, False, 0))                       # self
+            elif x < 0.55 and len(ts) > 1:
+                u = rng.choice([u for u in ts if u is not t])
+                t.deps.append((u, rng.random() < 0.2, rng.choice([0, G, 86400 * 30])))
+        if len(ts) >= 2 and rng.random() < 0.4:
+            a, b = rng.sample(ts, 2)
+            a.deps.append((b, False, 0))
+            b.deps.append((a, False, 0))                           # 2-cycle
+        if cont is not None and rng.random() < 0.3:
+            inner = [t for t in ts if t.parent is cont]
+            if inner:
+                cont.deps.append((rng.choice(inner), False, 0))    # container depends on its own child
+        out.append(("inf%04d" % i, p))
+    return out
+
+
+def corruptions(text, rng, k):
+    """k corrupted variants of a valid text: token deletion / duplication / swap, truncation, brace damage,
+    absurd numbers and dates."""
+    import re
+    toks = re.findall(r'"[^"]*"|\S+', text)
+    lines = text.splitlines()
+    out = []
+    for _ in range(k):
+        kind = rng.choice(["del", "dup", "swap", "trunc", "brace", "num", "date", "word", "macro"])
+        if kind in ("del", "dup", "swap") and len(toks) > 3:
+            t = list(toks)
+            i = rng.randrange(len(t) - 1)
+            if kind == "del":
+                del t[i]
+            elif kind == "dup":
+                t.insert(i, t[i])
+            else:
+                t[i], t[i + 1] = t[i + 1], t[i]
+            out.append((kind, " ".join(t) + "\n"))
+        elif kind == "trunc":
+            n = rng.randrange(1, max(2, len(lines)))
+            out.append((kind, "\n".join(lines[:n]) + "\n"))
+        elif kind == "brace":
+            idx = [m.start() for m in re.finditer(r"[{}]", text)]
+            if idx:
+                j = rng.choice(idx)
+                out.append((kind, text[:j] + rng.choice(["", "{{", "}}", "}"]) + text[j + 1:]))
+        elif kind == "num":
+            ms = list(re.finditer(r"\b\d+(h|min|d|w)\b", text))
+            if ms:
+                m = rng.choice(ms)
+                out.append((kind, text[:m.start()] + rng.choice(["0", "99999", "0.0001", "1e9", "-5"]) + m.group(1) + text[m.end():]))
+        elif kind == "date":
+            ms = list(re.finditer(r"\d{4}-\d{2}-\d{2}(-\d{2}:\d{2})?", text))
+            if ms:
+                m = rng.choice(ms)
+                out.append((kind, text[:m.start()] + rng.choice(["1970-01-01", "2999-12-31", "2024-02-30", "2024-13-01", "0000-00-00", "2024-01-01-25:61"]) + text[m.end():]))
+        elif kind == "word":
+            ms = list(re.finditer(r"\b(depends|allocate|effort|task|resource|priority|start|end|limits|dailymax)\b", text))
+            if ms:
+                m = rng.choice(ms)
+                out.append((kind, text[:m.start()] + rng.choice(["precedes", "duration", "length", "scheduling alap", "flags", "", "milestone"]) + text[m.end():]))
+        elif kind == "macro":
+            out.append((kind, text + rng.choice(["\n${undefined_macro}\n", "\nmacro loop [ ${loop} ]\n${loop}\n", "\nmacro a [ ${b} ]\nmacro b [ ${a} ]\ntask zz \"zz\" { ${a} }\n",
+                                                 "\nmacro big [ ${big} ${big} ]\n${big}\n"])))
+    return out
